@@ -4,6 +4,7 @@ import (
 	"bytes"
 	"encoding/json"
 	"fmt"
+	"io"
 	"os"
 	"os/exec"
 	"path/filepath"
@@ -28,7 +29,7 @@ func registerC09() {
 		ID:    "C09",
 		Level: "exploration",
 		Rule: "harness and library are built with -race; each run starts G in {2,4,16,64} goroutines, every goroutine owning private copies of its inputs and private Files and " +
-			"executing a PRNG sequence of Decode (with and without options and a formatting logger, on intact and on corrupted private copies) / DecodeChained / CheckIntegrity / DecodeHeader / DecodeHeaderAndFileID / Header.MarshalJSON / Encode of decoded Files / NewHeader+NewFile+constructors+Encode+Decode of API-built Files / Encode of Files larger than 4 MiB (all goroutines at once, in every fourth run) / String methods through readers and " +
+			"executing a PRNG sequence of Decode (with and without options and a formatting logger, on intact and on corrupted private copies) / DecodeChained / CheckIntegrity / DecodeHeader / DecodeHeaderAndFileID / Header.MarshalJSON / Encode of decoded Files / NewHeader+NewFile+constructors+Encode+Decode of API-built Files / Encode of Files larger than 4 MiB (all goroutines at once, in runs of a second build without race detector) / 96 and 200 goroutines that are all inside one reading entry point at the same moment (readers that wait, inside the first Read, for the others; same build) / String methods through readers and " +
 			"writers that yield and deliver short reads, so that calls interleave inside the library; pool A = inputs without accumulated component sources, pool B = with. " +
 			"Oracle 1: every race-detector report (GORACE halt_on_error=0, log parsed) is classified by the innermost repository frames of its two stacks; oracle 2: every call's " +
 			"result digest equals the digest of the same call run alone (taken before the goroutines start, or - in every second run, a 'cold start' - after they have finished, so that the process's first calls into the library are concurrent). Non-trivial: a call that overlapped in time (logical clock) with a call of " +
@@ -52,6 +53,7 @@ type c09Result struct {
 	Goroutines  int              `json:"goroutines"`
 	Pool        string           `json:"pool"`
 	Cold        bool             `json:"cold"`
+	MaxInFlight int64            `json:"max_in_flight"`
 }
 
 // c09Inputs returns the two pools: A without accumulated component sources, B with.
@@ -148,12 +150,34 @@ func (w *yieldWriter) Write(p []byte) (int, error) {
 }
 
 // c09Call runs call kind k on private data.
+// gatedReader calls gate once, inside the first Read: the call into the library is then in
+// flight, holding whatever it acquired on entry, while gate waits for the other goroutines.
+type gatedReader struct {
+	r    io.Reader
+	gate func()
+}
+
+func (g *gatedReader) Read(p []byte) (int, error) {
+	if g.gate != nil {
+		g.gate()
+		g.gate = nil
+	}
+	return g.r.Read(p)
+}
+
 func c09Call(kind int, in []byte, rng *lib.Rand, poolB bool) string {
+	return c09CallGated(kind, in, rng, poolB, nil)
+}
+
+func c09CallGated(kind int, in []byte, rng *lib.Rand, poolB bool, gate func()) string {
 	ch := lib.Chunker{Kind: "rand", Size: 64, R: rng, Yield: true}
 	if len(in) > 8192 {
 		ch.Size = 1500
 	}
-	r := lib.NewReader(in, ch)
+	var r io.Reader = lib.NewReader(in, ch)
+	if gate != nil {
+		r = &gatedReader{r, gate}
+	}
 	var out string
 	o := lib.Guard(func() {
 		switch kind {
@@ -161,7 +185,7 @@ func c09Call(kind int, in []byte, rng *lib.Rand, poolB bool) string {
 			f, e := fit.Decode(r)
 			out = c09Digest(f, poolB) + lib.ErrText(e)
 		case 2:
-			fs, e := fit.DecodeChained(lib.NewReader(append(append([]byte{}, in...), in...), ch))
+			fs, e := fit.DecodeChained(&gatedReader{lib.NewReader(append(append([]byte{}, in...), in...), ch), gate})
 			for _, f := range fs {
 				out += c09Digest(f, poolB)
 			}
@@ -286,6 +310,9 @@ func C09Sub(args []string) int {
 	// library at the same moment, so lazily initialised package state is first touched concurrently.
 	cold := runIdx%2 == 1
 	big := os.Getenv("C09_BIG") != ""
+	many := os.Getenv("C09_MANY") != ""
+	var arrived [5]int64
+	var maxInFlight int64
 	base := map[[2]int]string{}
 	takeBase := func() {
 		for k := 0; k < len(c09KindNames); k++ {
@@ -333,6 +360,30 @@ func C09Sub(args []string) int {
 			<-start
 			for atomic.LoadInt64(&goFlag) == 0 {
 			}
+			if many {
+				// every goroutine makes one call per reading entry point whose first Read waits
+				// until all G goroutines are inside the same entry point (or, if the library lets
+				// fewer in at a time, until a grace period has passed): G calls in flight at once
+				for ph, k := range []int{4, 3, 5, 0, 2} {
+					i := (gi + ph) % 3
+					gate := func() {
+						atomic.AddInt64(&arrived[ph], 1)
+						for w := 0; atomic.LoadInt64(&arrived[ph]) < int64(g) && w < 3000; w++ {
+							time.Sleep(time.Millisecond)
+						}
+						if n := atomic.LoadInt64(&arrived[ph]); n > atomic.LoadInt64(&maxInFlight) {
+							atomic.StoreInt64(&maxInFlight, n)
+						}
+					}
+					t0 := atomic.AddInt64(&clock, 1)
+					d := c09CallGated(k, mine[i], rng, poolB, gate)
+					t1 := atomic.AddInt64(&clock, 1)
+					spans[gi] = append(spans[gi], span{gi, k, t0, t1})
+					mu.Lock()
+					observed = append(observed, obsCall{gi, -1 - ph, k, i, d})
+					mu.Unlock()
+				}
+			}
 			for n := 0; n < per; n++ {
 				k := rng.Intn(len(c09KindNames) - 1) // the large Encode (last kind) is not drawn at random
 				i := rng.Intn(3)                     // few distinct inputs: all goroutines hammer the same message kinds
@@ -376,6 +427,7 @@ func C09Sub(args []string) int {
 		}
 	}
 	res.Cold = cold
+	res.MaxInFlight = maxInFlight
 	// Overlap statistics from the logical clock.
 	var all []span
 	for _, s := range spans {
@@ -461,7 +513,7 @@ func c09Main(c *lib.Ctx) {
 	os.MkdirAll(wd, 0o755)
 	gs := []int{2, 4, 16, 64}
 	sigs := map[string]int64{}
-	var totalOverlap, totalCalls int64
+	var totalOverlap, totalCalls, maxInFlight int64
 	pairs := map[string]int64{}
 	var rmu sync.Mutex
 	var rwg sync.WaitGroup
@@ -496,6 +548,13 @@ func c09Main(c *lib.Ctx) {
 				// throughput, and Encodes of Files larger than 4 MiB into slow destinations
 				cmd = exec.Command(norace, "c09", "run", strconv.Itoa(r), strconv.Itoa([]int{6, 12}[r%2]), "A", strconv.Itoa(calls*2))
 				cmd.Env = append(os.Environ(), "GOMAXPROCS=8", "C09_BIG=1")
+				if (r-nruns)%4 >= 2 {
+					// ... or many goroutines (96, 200) that are all inside the same entry point
+					// at the same moment, then a short PRNG sequence each
+					g = []int{96, 200}[r%2]
+					cmd = exec.Command(norace, "c09", "run", strconv.Itoa(r), strconv.Itoa(g), "A", "12")
+					cmd.Env = append(os.Environ(), "GOMAXPROCS=8", "C09_MANY=1")
+				}
 			}
 			out, err := cmd.Output()
 			rmu.Lock()
@@ -510,6 +569,9 @@ func c09Main(c *lib.Ctx) {
 			totalOverlap += res.Overlapping
 			for k, v := range res.Pairs {
 				pairs[k] += v
+			}
+			if res.MaxInFlight > maxInFlight {
+				maxInFlight = res.MaxInFlight
 			}
 			for _, m := range res.Mismatch {
 				c.Violation([]byte(fmt.Sprintf("run %d G=%d pool %s seed %d", r, g, pool, lib.Seed())), "run %d (G=%d, pool %s): %s %v", r, g, pool, m, res.Panics)
@@ -549,6 +611,7 @@ func c09Main(c *lib.Ctx) {
 	rwg.Wait()
 	c.NontrivialN(totalOverlap)
 	c.Count("calls", totalCalls)
+	c.Count("most_calls_of_one_entry_point_in_flight_at_once", maxInFlight)
 	c.Count("calls_overlapping_another_goroutine", totalOverlap)
 	c.Count("distinct_overlapping_call_kind_pairs", int64(len(pairs)))
 	c.Count("race_report_signatures", int64(len(sigs)))
